@@ -263,4 +263,275 @@ theorem checkedDivRounded_spec (hw : WideDiv) (prof : Profile) (tm : Mode) (a : 
       rw [hsp]
       exact gt_tail prof tm a b n (p - (n + q)) ha ⟨by omega, hb.2⟩ hs
 
+theorem specDivCore_shape (tm : Mode) (a : Int) (p : Nat) (b : Int) (q n : Nat) :
+    specDivCore tm a p b q n ≠ .divzero ∧ specDivCore tm a p b q n ≠ .none ∧ specDivCore tm a p b q n ≠ .nfrac :=
+  valFit_shape _ _
+
+/-- from the kernel's `Option<i128>` to the operator result `Decimal { coeff, n }` or the overflow panic -/
+theorem op_of_kernel (e : Spec.Exp) (n : Nat) (r : Outcome (Option Int))
+    (h : Spec.allowedChecked e (outOptInt n r) = true) (hn : e ≠ .divzero) (hnn : e ≠ .none) (hnf : e ≠ .nfrac) :
+    Spec.allowedOp e (outPair (match r with
+      | .ok (some c) => .ok ⟨c, n⟩
+      | .ok none => .panic .overflow
+      | .panic k => .panic k)) = true := by
+  cases r with
+  | panic k => cases e <;> simp [Spec.allowedChecked, Spec.allowedOp, outOptInt] at h hn hnn hnf ⊢
+  | ok o =>
+    cases o with
+    | none => cases e <;> simp [Spec.allowedChecked, Spec.allowedOp, Spec.isOvfPanic, outOptInt] at h hn hnn hnf ⊢
+    | some v => cases e <;> simp [Spec.allowedChecked, Spec.allowedOp, outOptInt] at h hn hnn hnf ⊢ <;> exact h
+
+/-- the common body of the four `div_rounded` shapes after the guards -/
+theorem div_rounded_body (hw : WideDiv) (prof : Profile) (tm : Mode) (a : Int) (p : Nat) (b : Int) (q n : Nat)
+    (ha : I128_MIN < a ∧ a ≤ I128_MAX) (hb : I128_MIN < b ∧ b ≤ I128_MAX) (hb0 : b ≠ 0)
+    (hp : p ≤ 18) (hq : q ≤ 18) (hn : n ≤ 18) :
+    Spec.allowedOp (specDivCore tm a p b q n) (outPair (do
+      match ← checkedDivRounded prof tm a p b q n with
+      | some c => pure ⟨c, n⟩
+      | none => Outcome.panic PanicKind.overflow)) = true := by
+  have hk := checkedDivRounded_spec hw prof tm a p b q n ha hb hb0 hp hq hn
+  obtain ⟨s1, s2, s3⟩ := specDivCore_shape tm a p b q n
+  generalize checkedDivRounded prof tm a p b q n = r at hk ⊢
+  have := op_of_kernel _ n r hk s1 s2 s3
+  cases r with
+  | panic k => exact this
+  | ok o => cases o <;> exact this
+
+/-- `Decimal.div_rounded(Decimal, n)` for every `n : u8` -/
+theorem div_rounded_spec (hw : WideDiv) (prof : Profile) (tm : Mode) (x y : Dec) (n : Nat) (hx : Dom x) (hy : Dom y) :
+    Spec.allowedOp (Spec.divRounded tm x.coeff x.nfrac y.coeff y.nfrac n) (outPair (divRounded prof tm x y n)) = true := by
+  obtain ⟨a, p⟩ := x
+  obtain ⟨b, q⟩ := y
+  unfold divRounded Spec.divRounded
+  simp only [max_nfrac, eqZero]
+  by_cases hn : n > 18
+  · simp [hn, Spec.allowedOp]
+  · simp only [hn, if_false]
+    by_cases hb0 : b = 0
+    · simp [hb0, Spec.allowedOp]
+    · simp only [hb0, decide_false, Bool.false_eq_true, if_false]
+      by_cases ha0 : a = 0
+      · simp [ha0, Spec.allowedOp, Dec.ZERO]
+      · simp only [ha0, decide_false, Bool.false_eq_true, if_false]
+        exact div_rounded_body hw prof tm a p b q n ⟨hx.1, hx.2.1⟩ ⟨hy.1, hy.2.1⟩ hb0 hx.2.2 hy.2.2 (by omega)
+
+/-- `Decimal.div_rounded(int, n)` (guarded since the D8 repair); `i` any value of the 9 integer types except `i128::MIN` -/
+theorem div_rounded_dec_int_spec (hw : WideDiv) (prof : Profile) (tm : Mode) (x : Dec) (i : Int) (n : Nat) (hx : Dom x)
+    (hi : I128_MIN < i ∧ i ≤ I128_MAX) :
+    Spec.allowedOp (Spec.divRounded tm x.coeff x.nfrac i 0 n) (outPair (divRoundedDecInt prof tm x i n)) = true := by
+  obtain ⟨a, p⟩ := x
+  unfold divRoundedDecInt Spec.divRounded
+  simp only [max_nfrac, eqZero]
+  by_cases hn : n > 18
+  · simp [hn, Spec.allowedOp]
+  · simp only [hn, if_false]
+    by_cases hb0 : i = 0
+    · simp [hb0, Spec.allowedOp]
+    · simp only [hb0, if_false]
+      by_cases ha0 : a = 0
+      · simp [ha0, Spec.allowedOp, Dec.ZERO]
+      · simp only [ha0, decide_false, Bool.false_eq_true, if_false]
+        exact div_rounded_body hw prof tm a p i 0 n ⟨hx.1, hx.2.1⟩ hi hb0 hx.2.2 (by omega) (by omega)
+
+/-- `int.div_rounded(Decimal, n)` (guarded since the D8 repair) -/
+theorem div_rounded_int_dec_spec (hw : WideDiv) (prof : Profile) (tm : Mode) (i : Int) (y : Dec) (n : Nat) (hy : Dom y)
+    (hi : I128_MIN < i ∧ i ≤ I128_MAX) :
+    Spec.allowedOp (Spec.divRounded tm i 0 y.coeff y.nfrac n) (outPair (divRoundedIntDec prof tm i y n)) = true := by
+  obtain ⟨b, q⟩ := y
+  unfold divRoundedIntDec Spec.divRounded
+  simp only [max_nfrac, eqZero]
+  by_cases hn : n > 18
+  · simp [hn, Spec.allowedOp]
+  · simp only [hn, if_false]
+    by_cases hb0 : b = 0
+    · simp [hb0, Spec.allowedOp]
+    · simp only [hb0, decide_false, Bool.false_eq_true, if_false]
+      by_cases ha0 : i = 0
+      · simp [ha0, Spec.allowedOp, Dec.ZERO]
+      · simp only [ha0, if_false]
+        exact div_rounded_body hw prof tm i 0 b q n hi ⟨hy.1, hy.2.1⟩ hb0 (by omega) hy.2.2 (by omega)
+
+/- FULL STATEMENT (false for the current code — open finding D8):
+     ∀ n, allowedOp (Spec.divRounded tm i 0 j 0 n) (outPair (divRoundedIntInt prof tm i j n))
+   `impl DivRounded<$t> for $t` has no `n > 18` guard and cannot get one: the repository's own test
+   `div_rounded_int_by_int_tests::test_u64` asserts a result with 32 fractional digits. -/
+
+/-- `int.div_rounded(int, n)` restricted to `n ≤ 18` -/
+theorem div_rounded_int_int_partial (hw : WideDiv) (prof : Profile) (tm : Mode) (i j : Int) (n : Nat) (hn : n ≤ 18)
+    (hi : I128_MIN < i ∧ i ≤ I128_MAX) (hj : I128_MIN < j ∧ j ≤ I128_MAX) :
+    Spec.allowedOp (Spec.divRounded tm i 0 j 0 n) (outPair (divRoundedIntInt prof tm i j n)) = true := by
+  unfold divRoundedIntInt Spec.divRounded
+  have hn' : ¬ n > 18 := by omega
+  simp only [hn', if_false]
+  by_cases hb0 : j = 0
+  · simp [hb0, Spec.allowedOp]
+  · simp only [hb0, if_false]
+    by_cases ha0 : i = 0
+    · simp [ha0, Spec.allowedOp, Dec.ZERO]
+    · simp only [ha0, if_false]
+      exact div_rounded_body hw prof tm i 0 j 0 n hi hj hb0 (by omega) (by omega) hn
+
+/-- witness of the open finding: `1u64.div_rounded(3u64, 19)` returns 19 fractional digits instead of panicking -/
+theorem div_rounded_int_n19_witness :
+    divRoundedIntInt Profile.dev .heven 1 3 19 = .ok ⟨3333333333333333333, 19⟩ ∧
+    Spec.allowedOp (Spec.divRounded .heven 1 0 3 0 19) (outPair (divRoundedIntInt Profile.dev .heven 1 3 19)) = false := by
+  decide
+
+/-- `x.mul_rounded(y, n)` -/
+theorem mul_rounded_spec (hw : C02.WideMul) (prof : Profile) (tm : Mode) (x y : Dec) (n : Nat) (hx : Dom x) (hy : Dom y) :
+    Spec.allowedOp (Spec.mulRounded tm x.coeff x.nfrac y.coeff y.nfrac n) (outPair (mulRounded prof tm x y n)) = true := by
+  by_cases hn : n > 18
+  · unfold mulRounded Spec.mulRounded
+    rw [max_nfrac]
+    simp only [hn, if_true]
+    rfl
+  · have hcore := C02.checkedMulRounded_spec hw prof tm x y n hx hy (by omega)
+    obtain ⟨s1, s2, s3⟩ := C02.specMulCore_shape tm x.coeff x.nfrac y.coeff y.nfrac n
+    have hop := allowedOp_of_checked _ _ hcore s1 s2 s3
+    obtain ⟨a, p⟩ := x
+    obtain ⟨b, q⟩ := y
+    unfold mulRounded Spec.mulRounded
+    simp only [max_nfrac, hn, if_false, eqZero]
+    by_cases h0 : a = 0 ∨ b = 0
+    · have : (decide (a = 0) || decide (b = 0)) = true := by simpa using h0
+      simp [h0, this, Spec.allowedOp, Dec.ZERO]
+    · have : (decide (a = 0) || decide (b = 0)) = false := by simpa using h0
+      simp only [h0, this, if_false, Bool.false_eq_true]
+      unfold C02.specMulCore at hop
+      cases hcm : checkedMulRounded prof tm ⟨a, p⟩ ⟨b, q⟩ n with
+      | panic k => rw [hcm] at hop; simpa [panicOnNone] using hop
+      | ok o =>
+        cases o with
+        | none => rw [hcm] at hop; simpa [panicOnNone] using hop
+        | some r => rw [hcm] at hop; simpa [panicOnNone] using hop
+
+/-- a `.val` expectation of `valFit` is a coefficient of the Decimal domain -/
+theorem valFit_val_dom (c : Int) (p : Nat) (c' : Int) (p' : Nat) (h : Spec.valFit c p = .val c' p') :
+    I128_MIN < c' ∧ c' ≤ I128_MAX ∧ p' = p := by
+  rw [valFit_eq] at h
+  by_cases h1 : c = I128_MIN
+  · simp [h1] at h
+  · by_cases h2 : fitsI128 c = true
+    · simp only [h1, h2, if_false, if_true, Spec.Exp.val.injEq] at h
+      obtain ⟨e1, e2⟩ := h
+      subst e1; subst e2
+      rw [fitsI128_iff] at h2
+      exact ⟨by omega, h2.2, rfl⟩
+    · simp [h1, h2] at h
+
+theorem divRounded_val_dom (tm : Mode) (a : Int) (p : Nat) (b : Int) (q : Nat) (c : Int) (p' : Nat)
+    (h : Spec.divRounded tm a p b q 0 = .val c p') : I128_MIN < c ∧ c ≤ I128_MAX ∧ p' = 0 := by
+  unfold Spec.divRounded at h
+  simp only [show ¬ (0 > 18) by omega, if_false] at h
+  split at h
+  · simp at h
+  · split at h
+    · simp only [Spec.Exp.val.injEq] at h
+      obtain ⟨e1, e2⟩ := h
+      subst e1; subst e2
+      unfold I128_MIN I128_MAX; omega
+    · exact valFit_val_dom _ _ _ _ h
+
+/-- the second step of `Spec.quantize` as a function of the first step's expectation -/
+def quantExp (E : Int → Spec.Exp) : Spec.Exp → Spec.Exp
+  | .val k _ => E k
+  | .valOrOvf _ _ => .any
+  | e => e
+
+theorem spec_quantize_eq (tm : Mode) (intQuant : Bool) (a : Int) (p : Nat) (b : Int) (q : Nat) :
+    Spec.quantize tm intQuant a p b q =
+      quantExp (fun k => if intQuant then Spec.mulInt k 0 b else Spec.mul tm k 0 b q) (Spec.divRounded tm a p b q 0) := by
+  unfold Spec.quantize quantExp
+  cases Spec.divRounded tm a p b q 0 <;> rfl
+
+/-- every `quantize`: an allowed `div_rounded(…, 0)` outcome followed by the multiplication `K` -/
+theorem quantize_glue (e : Spec.Exp) (r : Outcome Dec) (h : Spec.allowedOp e (outPair r) = true)
+    (K : Dec → Outcome Dec) (E : Int → Spec.Exp)
+    (hK : ∀ k : Int, I128_MIN < k ∧ k ≤ I128_MAX → Spec.allowedOp (E k) (outPair (K ⟨k, 0⟩)) = true)
+    (hv : ∀ c p, e = .val c p → I128_MIN < c ∧ c ≤ I128_MAX ∧ p = 0) :
+    Spec.allowedOp (quantExp E e) (outPair (r >>= K)) = true := by
+  unfold quantExp
+  cases e with
+  | val c p =>
+    obtain ⟨hc0, hc1, hp⟩ := hv c p rfl
+    subst hp
+    cases r with
+    | panic k => simp [Spec.allowedOp] at h
+    | ok d =>
+      simp only [outPair_ok, Spec.allowedOp, beq_iff_eq, Prod.mk.injEq] at h
+      obtain ⟨d1, d2⟩ := d
+      simp only at h
+      obtain ⟨h1, h2⟩ := h
+      subst h1; subst h2
+      simp only [Outcome.bind_ok]
+      exact hK d1 ⟨hc0, hc1⟩
+  | ovf =>
+    cases r with
+    | panic k => simpa [Spec.allowedOp] using h
+    | ok d => simp [Spec.allowedOp] at h
+  | valOrOvf c p => simp [Spec.allowedOp]
+  | divzero =>
+    cases r with
+    | panic k => simpa [Spec.allowedOp] using h
+    | ok d => simp [Spec.allowedOp] at h
+  | nfrac =>
+    cases r with
+    | panic k => simp [Spec.allowedOp]
+    | ok d => simp [Spec.allowedOp] at h
+  | none => simp [Spec.allowedOp] at h
+  | any => simp [Spec.allowedOp]
+
+/-- `x.quantize(q)` for two Decimals: `k·q` with `k = round_mode(x/q)`, represented as the product `k * q` -/
+theorem quantize_spec (hwm : C02.WideMul) (hwd : WideDiv) (prof : Profile) (tm : Mode) (x q : Dec) (hx : Dom x) (hq : Dom q) :
+    Spec.allowedOp (Spec.quantize tm false x.coeff x.nfrac q.coeff q.nfrac) (outPair (quantize prof tm x q)) = true := by
+  rw [spec_quantize_eq]
+  unfold quantize
+  simp only [Bool.false_eq_true, if_false]
+  exact quantize_glue _ _ (div_rounded_spec hwd prof tm x q 0 hx hq) (fun r => mul prof tm r q)
+    (fun k => Spec.mul tm k 0 q.coeff q.nfrac)
+    (fun k hk => C02.mul_spec hwm prof tm ⟨k, 0⟩ q ⟨hk.1, hk.2, Nat.zero_le _⟩ hq)
+    (fun c p h => divRounded_val_dom tm _ _ _ _ c p h)
+
+/-- `Decimal.quantize(int)` -/
+theorem quantize_dec_int_spec (hwd : WideDiv) (prof : Profile) (tm : Mode) (x : Dec) (i : Int) (hx : Dom x)
+    (hi : I128_MIN < i ∧ i ≤ I128_MAX) :
+    Spec.allowedOp (Spec.quantize tm true x.coeff x.nfrac i 0) (outPair (quantizeDecInt prof tm x i)) = true := by
+  rw [spec_quantize_eq]
+  unfold quantizeDecInt
+  simp only [if_true]
+  exact quantize_glue _ _ (div_rounded_dec_int_spec hwd prof tm x i 0 hx hi) (fun r => mulInt r i)
+    (fun k => Spec.mulInt k 0 i)
+    (fun k _ => C02.mul_int_spec ⟨k, 0⟩ i)
+    (fun c p h => divRounded_val_dom tm _ _ _ _ c p h)
+
+/-- `int.quantize(Decimal)` -/
+theorem quantize_int_dec_spec (hwm : C02.WideMul) (hwd : WideDiv) (prof : Profile) (tm : Mode) (i : Int) (q : Dec) (hq : Dom q)
+    (hi : I128_MIN < i ∧ i ≤ I128_MAX) :
+    Spec.allowedOp (Spec.quantize tm false i 0 q.coeff q.nfrac) (outPair (quantizeIntDec prof tm i q)) = true := by
+  rw [spec_quantize_eq]
+  unfold quantizeIntDec
+  simp only [Bool.false_eq_true, if_false]
+  exact quantize_glue _ _ (div_rounded_int_dec_spec hwd prof tm i q 0 hq hi) (fun r => mul prof tm r q)
+    (fun k => Spec.mul tm k 0 q.coeff q.nfrac)
+    (fun k hk => C02.mul_spec hwm prof tm ⟨k, 0⟩ q ⟨hk.1, hk.2, Nat.zero_le _⟩ hq)
+    (fun c p h => divRounded_val_dom tm _ _ _ _ c p h)
+
+/-- `int.quantize(int)` (`n = 0`, so the missing guard of the int/int shape is irrelevant here) -/
+theorem quantize_int_int_spec (hwd : WideDiv) (prof : Profile) (tm : Mode) (i j : Int)
+    (hi : I128_MIN < i ∧ i ≤ I128_MAX) (hj : I128_MIN < j ∧ j ≤ I128_MAX) :
+    Spec.allowedOp (Spec.quantize tm true i 0 j 0) (outPair (quantizeIntInt prof tm i j)) = true := by
+  rw [spec_quantize_eq]
+  unfold quantizeIntInt
+  simp only [if_true]
+  exact quantize_glue _ _ (div_rounded_int_int_partial hwd prof tm i j 0 (by omega) hi hj) (fun r => mulInt r j)
+    (fun k => Spec.mulInt k 0 j)
+    (fun k _ => C02.mul_int_spec ⟨k, 0⟩ j)
+    (fun c p h => divRounded_val_dom tm _ _ _ _ c p h)
+
+/-! ### non-vacuity -/
+example : divRounded Profile.dev .heven ⟨51, 2⟩ ⟨2, 0⟩ 1 = .ok ⟨3, 1⟩ := by decide          -- 0.51 / 2 @1 = 0.3 (was 0.2: D7)
+example : divRounded Profile.dev .up ⟨41, 2⟩ ⟨2, 0⟩ 1 = .ok ⟨3, 1⟩ := by decide
+example : divRoundedDecInt Profile.release .heven ⟨1, 0⟩ 3 19 = .panic .nfrac := by decide   -- D8 repaired shape
+example : mulRounded Profile.dev .hup ⟨15, 1⟩ ⟨15, 1⟩ 1 = .ok ⟨23, 1⟩ := by decide
+
 end Fpdec.Props.C04
